@@ -233,6 +233,9 @@ func c17Check(c C17Case, rec *evid.Rec) error {
 			var buf bytes.Buffer
 			// read in drawn chunk sizes
 			tmp := make([]byte, 1+len(op.Chunk)%7)
+			if len(c.Contents[op.Key%len(c.Contents)]) > 1<<16 {
+				tmp = make([]byte, (1+len(op.Chunk)%7)<<14)
+			}
 			for {
 				n, rerr := r.Read(tmp)
 				buf.Write(tmp[:n])
@@ -285,6 +288,14 @@ func c17Check(c C17Case, rec *evid.Rec) error {
 					rest   []byte
 				}
 				var ss [2]stream
+				_, e1 := nodes.MkLink(keys[op.Key])
+				_, e2 := nodes.MkLink(keys[kb])
+				bothCids := e1 == nil && e2 == nil
+				var overlapLsys linking.LinkSystem
+				if st.cmem == nil {
+					overlapLsys = cidlink.DefaultLinkSystem()
+					overlapLsys.SetWriteStorage(st.rw)
+				}
 				for j, ki := range []int{op.Key, kb} {
 					ki := ki
 					data := append([]byte{}, c.Contents[ki%len(c.Contents)]...)
@@ -298,6 +309,13 @@ func c17Check(c C17Case, rec *evid.Rec) error {
 							return oerr
 						}
 						ss[j] = stream{w: w, commit: func() error { return commit(l) }, rest: data}
+					} else if l, lerr := nodes.MkLink(keys[ki]); lerr == nil && op.Via && bothCids {
+						// through a link system set up with SetWriteStorage: two block writes open at the same time
+						w, commit, oerr := overlapLsys.StorageWriteOpener(linking.LinkContext{Ctx: ctx})
+						if oerr != nil {
+							return fmt.Errorf("StorageWriteOpener: %v", oerr)
+						}
+						ss[j] = stream{w: w, commit: func() error { return commit(l) }, rest: data}
 					} else {
 						w, commit, oerr := storage.PutStream(ctx, st.rw)
 						if oerr != nil {
@@ -309,6 +327,9 @@ func c17Check(c C17Case, rec *evid.Rec) error {
 				for len(ss[0].rest) > 0 || len(ss[1].rest) > 0 {
 					for j := range ss {
 						n := 1 + len(op.Chunk)%5
+						if len(ss[j].rest) > 1<<16 {
+							n <<= 15
+						}
 						if n > len(ss[j].rest) {
 							n = len(ss[j].rest)
 						}
@@ -364,6 +385,9 @@ func c17Check(c C17Case, rec *evid.Rec) error {
 						n := len(rest)
 						if len(op.Chunk) > 0 {
 							n = 1 + int(op.Chunk[ci%len(op.Chunk)])%16
+							if len(buf) > 1<<16 {
+								n <<= 14
+							}
 							ci++
 							if n > len(rest) {
 								n = len(rest)
@@ -505,7 +529,7 @@ var c17Part = evid.Part[C17Case]{
 					b[len(b)-1] ^= byte(rapid.SampledFrom([]int{1, 0x20, 0x80, 0xff}).Draw(t, "flip"))
 					k = string(b)
 				default:
-					l := rapid.SampledFrom([]int{31, 32, 33, 63, 64, 65, 100, 127, 128, 129}).Draw(t, "padlen")
+					l := rapid.SampledFrom([]int{31, 32, 33, 63, 64, 65, 100, 127, 128, 129, 158, 159, 160, 200}).Draw(t, "padlen")
 					for len(base) < l {
 						base += "p"
 					}
@@ -527,6 +551,10 @@ var c17Part = evid.Part[C17Case]{
 			seen[k] = true
 			c.Keys = append(c.Keys, val.Txt(k))
 			n := rapid.SampledFrom([]int{0, 1, 5, 40, 300, 4096}).Draw(t, "clen")
+			if rapid.IntRange(0, 39).Draw(t, "big") == 0 {
+				// block sizes around the MiB (what a store may write in pieces)
+				n = rapid.SampledFrom([]int{1 << 20, 2 << 20, 1<<20 + 1, 1<<20 - 1}).Draw(t, "bigclen")
+			}
 			content := make([]byte, n)
 			fill := rapid.Byte().Draw(t, "fill")
 			for i := range content {
